@@ -208,6 +208,7 @@ class Check:
         self.t0 = time.time()
         self.dir = os.path.join(BUILD, pid)
         shutil.rmtree(self.dir, ignore_errors=True)
+        shutil.rmtree(os.path.join(VERIF, "replays", pid), ignore_errors=True)
         os.makedirs(self.dir, exist_ok=True)
         open(os.path.join(self.dir, "Empty.cfg"), "w").close()
         _stage(self.dir, None)
@@ -310,16 +311,19 @@ class Check:
                     h = self.known_hits.setdefault(key, {"count": 0, "text": f["text"], "example": ev})
                     h["count"] += 1
                     return
-        if len(self.violations) < 200:
-            rdir = os.path.join(VERIF, "replays", self.pid)
+        nclause = sum(1 for v in self.violations if v[0] == clause)
+        rdir = os.path.join(VERIF, "replays", self.pid)
+        if nclause < 5 and len(os.listdir(rdir) if os.path.isdir(rdir) else []) < 300:
             os.makedirs(rdir, exist_ok=True)
-            path = os.path.join(rdir, "v%03d.json" % len(self.violations))
+            safe = re.sub(r"[^A-Za-z0-9_.-]", "_", clause)
+            path = os.path.join(rdir, "%s_%d.json" % (safe, nclause))
             with open(path, "w") as f:
                 json.dump({"property": self.pid, "trace_module": module, "clause": clause, "event": ev,
                            "key": key, "detail": describe(ev, clause) if describe else None,
                            "seed": self.seed, "tier": self.tier}, f)
         else:
-            path = os.path.join(VERIF, "replays", self.pid, "v199.json")
+            safe = re.sub(r"[^A-Za-z0-9_.-]", "_", clause)
+            path = os.path.join(rdir, "%s_0.json" % safe)
         self.violations.append((clause, key, path))
 
     def fail_direct(self, clause, detail, key=None):
@@ -393,6 +397,10 @@ def setup_repo_import():
     import warnings
 
     warnings.filterwarnings("ignore")
+    try:  # fixed import order (the package has an import cycle that only resolves starting from location)
+        import inscripta.biocantor.location.location_impl  # noqa: F401
+    except Exception:
+        pass
 
 
 def pmap(fn, items, procs=NCPU, chunksize=1):
